@@ -8,3 +8,6 @@ check("C18", "exploration", "runtime monitoring: reference-map oracle over recor
 check("C10", "exploration", "runtime monitoring: differential oracle (reference resolver from the documented precedence) over grammar-generated documents + round-trip monitor",
       "Tens of thousands (quick) of (document, validator) pairs from a grammar over the presence lattice are resolved by the real v2/legacy code and by an independent reference written from the documentation, and again after Marshal/Unmarshal; held on what was generated.",
       "Reference resolver (DESIGN.md A.1) is the trusted base; top-level bare alternation in account expressions is excluded (judged under C13).")
+check("C06", "exploration", "runtime monitoring: BLS verification of every returned signature against an independently merkleised signing root; concurrent request storm under the Go race detector",
+      "Tens of thousands of requests of all ten signing kinds (random content, epochs across domain boundaries, batches mixing ordinary and distributed accounts in any order) against one long-lived real signer; each signature verified with real BLS keys against a reference SSZ merkleisation; plus overlapping local-signing calls under -race. Held on what was generated.",
+      "herumi BLS verification and sha256 are trusted; harness accounts play the remote signer (they sign what they are asked, the oracle decides whether that was the right thing).")
